@@ -2,8 +2,10 @@
 #include "verif.h"
 enum { state_created, state_locked, state_isolated, state_bound, state_dead };   /* order checked by spec.py against task_group.h */
 #define may_have_children 1
-struct tgc; struct clist { uintptr_t epoch; int m_mutex; size_t n; struct tgc **items; };
-struct tgc { struct tgc *my_parent; uint32_t my_cancellation_requested; uint8_t my_state; uint8_t my_may_have_children; struct { bool bound, fp_settings; } my_traits; struct clist *my_context_list; };
+struct ilnode { struct ilnode *my_prev_node, *my_next_node; }; struct eptr { int live; };
+struct tgc; struct clist { uintptr_t epoch; int m_mutex; size_t n; struct tgc **items; bool orphaned; };
+struct tgc { struct tgc *my_parent; uint32_t my_cancellation_requested; uint8_t my_state; uint8_t my_may_have_children; struct { bool bound, fp_settings; } my_traits; struct clist *my_context_list;
+             struct ilnode my_node; struct eptr *my_exception; void *my_itt_caller; uint64_t my_cpu_ctl_env; };
 struct thread_data { struct tgc *current_context, *default_ctx; struct clist *my_context_list; };
 uintptr_t the_context_state_propagation_epoch; int the_context_state_propagation_mutex;
 #define SPIN_WAIT_WHILE_EQ(loc, v) do { interfere(); __CPROVER_assume((loc) != (v)); } while (0)
@@ -16,7 +18,7 @@ static void interfere(void) { X.my_cancellation_requested = nondet_u32(); gWinne
 #define ATOMIC_LOAD_AT(site, f) ({ uint32_t o_ = X.my_cancellation_requested; unsigned long w_ = gWinners; interfere(); __CPROVER_assume(X.my_cancellation_requested >= o_ && gWinners >= w_); (f); })
 #define ATOMIC_XCHG_AT(site, f, v) ({ uint32_t o_ = X.my_cancellation_requested; unsigned long w_ = gWinners; interfere(); __CPROVER_assume(X.my_cancellation_requested >= o_ && gWinners >= w_); \
     uint32_t old_ = (f); (f) = (v); if (old_ == 0) { gWinners++; meWin = true; } __CPROVER_assert(CINV, "guarantee: one winner per 0->1 transition, at " #site); old_; })
-static void STUB_propagate(struct tgc *c, uint32_t s) { g_prop_calls++; }
+static void STUB_propagate(struct tgc *c, uint32_t s) { g_prop_calls++; __CPROVER_assert(c == &X && s == 1, "C04.cancel: the winner propagates the state 'cancelled' from its own context"); }
 #define LOOP_prop_1
 #define LOOP_prop_2
 #define P_STORE(c, v) ((c)->my_cancellation_requested = (v))
@@ -39,25 +41,19 @@ void h_cancel(void) {
 #endif
 
 #ifdef PROP
+/* bounded cross-check of propagate.path.any_depth on real structs and real pointers: an arbitrary forest */
 #ifndef DEPTH
 #define DEPTH 5
 #endif
-static void interfere(void) {}
+#define LOOP_prop_anc
+#define LOOP_prop_paint
 #define LOOP_prop_1
 #define LOOP_prop_2
+#define LOOP_prop_3
 #define P_STORE(c, v) ((c)->my_cancellation_requested = (v))
-#define ATOMIC_LOAD_AT(site, f) (f)
-#define ATOMIC_XCHG_AT(site, f, v) (0)
-#define ATOMIC_STORE_AT(site, f, v) ((f) = (v))
-#define ATOMIC_CAS_AT(site, f, e, d) (0)
-#define STUB_propagate(c, s) ((void)0)
-#define STUB_copy_fp_settings(a, b) ((void)0)
-#define STUB_register_with(a, b) ((void)0)
-#define LOCK_MUTEX(m) ((void)0)
-#define UNLOCK_MUTEX(m) ((void)0)
-#define LIST_PUSH_FRONT(l, c) ((void)0)
-#define STUB_bind_to_impl(a, b) ((void)0)
-#include "tgc.inc"
+#define P_LOAD_STATE(c) ((c)->my_cancellation_requested)
+#define TGC_PARENT(c) ((c)->my_parent)
+#include "prop.inc"
 static struct tgc N[DEPTH + 2];
 void h_propagate(void) {
     /* an arbitrary forest over DEPTH+2 contexts: parent index is smaller than the child's (or none) */
@@ -79,12 +75,73 @@ void h_propagate(void) {
 }
 #endif
 
+#ifdef PROPU
+/* task_group_context_impl::propagate_task_group_state for ancestor chains of ANY length (loop contracts).  The function only ever follows my_parent links starting at ctx, so
+   the world it can see is ctx's ancestor chain: entry 0 is ctx, the parent of entry i is entry i+1, entry n-1 has no parent (root or isolated context).  Contexts are integer
+   encoded (never dereferenced; every access goes through an accessor that checks that the context is a member of the chain), their state words live in g_st[].  The source is
+   entry g_s of the chain (g_s == 0: ctx itself) or a context outside the chain (g_s >= n: sibling, descendant, unrelated tree).  One arbitrary entry g_k is watched. */
+#define NMAX ((size_t)1 << 12)
+static size_t g_n; static uint32_t *g_st; size_t g_k, g_s; uint32_t g_ns, g_st0k; int g_stores;
+#define CPTR(i) ((struct tgc *)(((uintptr_t)(i) + 1) << 4))
+#define CIDX(p) ((size_t)(((uintptr_t)(p)) >> 4) - 1)
+#define AIDX(p) ((p) == NULL ? g_n : CIDX(p))              /* position of a chain cursor; the end of the chain (NULL) is position n */
+#define WF(p) ((p) == (AIDX(p) == g_n ? NULL : CPTR(AIDX(p))))
+static struct tgc *tgc_parent(struct tgc *p) {
+    __CPROVER_assert(p != NULL && WF(p) && CIDX(p) < g_n, "C04.propagate: only ctx and its ancestors are ever looked at");
+    return CIDX(p) + 1 < g_n ? CPTR(CIDX(p) + 1) : NULL; }
+static uint32_t tgc_state(struct tgc *p) {
+    __CPROVER_assert(p != NULL && WF(p) && CIDX(p) < g_n, "C04.propagate: only ctx and its ancestors are ever looked at");
+    return g_st[CIDX(p)]; }
+static void tgc_store(struct tgc *p, uint32_t v) {
+    __CPROVER_assert(p != NULL && WF(p) && CIDX(p) < g_n, "C04.propagate: only ctx and its ancestors can be written - siblings, descendants and unrelated contexts are out of reach");
+    g_st[CIDX(p)] = v; }
+#define TGC_PARENT(c) tgc_parent(c)
+#define P_LOAD_STATE(c) tgc_state(c)
+#define P_STORE(c, v) tgc_store((c), (v))
+/* search loop: the cursor is at position 1..n; nothing has been written as long as the source was not met below the cursor (if the search went on after painting - the code
+   leaves the loop there, but need not - the path below the source is painted and nothing else) */
+#define LOOP_prop_anc __CPROVER_assigns(ancestor, __CPROVER_object_whole(g_st)) \
+    __CPROVER_loop_invariant(AIDX(ancestor) >= 1 && AIDX(ancestor) <= g_n && WF(ancestor) && ((g_s >= 1 && g_s < AIDX(ancestor) && g_k < g_s) ? g_st[g_k] == g_ns : g_st[g_k] == g_st0k)) \
+    __CPROVER_decreases(g_n - AIDX(ancestor))
+/* painting loop: runs only once the source was found at position g_s; everything below the cursor carries the new state, everything from the cursor on is as it was */
+#define LOOP_prop_paint __CPROVER_assigns(c, __CPROVER_object_whole(g_st)) \
+    __CPROVER_loop_invariant(g_s >= 1 && g_s < g_n && ancestor == CPTR(g_s) && c != NULL && CIDX(c) <= g_s && WF(c) && (g_k < CIDX(c) ? g_st[g_k] == g_ns : g_st[g_k] == g_st0k)) \
+    __CPROVER_decreases(g_s - CIDX(c))
+#define LOOP_prop_1
+#define LOOP_prop_2
+#define LOOP_prop_3
+#include "prop.inc"
+size_t IN_n, IN_s, IN_k; uint32_t IN_ns, IN_st0;
+void h_propagate_any(void) {
+    g_n = IN_n = nondet_size_t(); __CPROVER_assume(g_n >= 1 && g_n <= NMAX); g_st = malloc(g_n * sizeof(uint32_t)); __CPROVER_assume(g_st != NULL);
+    g_s = IN_s = nondet_size_t(); __CPROVER_assume(g_s <= 2 * NMAX); g_k = IN_k = nondet_size_t(); __CPROVER_assume(g_k < g_n); g_ns = IN_ns = nondet_u32();
+#ifdef SRC_ANCESTOR
+    __CPROVER_assume(g_s >= 1 && g_s < g_n);
+    __CPROVER_assume(g_st[g_s] == g_ns);        /* caller invariant: the disseminator walks only while the source carries new_state (it backs down otherwise: job walk.disseminator) */
+#else
+    __CPROVER_assume(!(g_s >= 1 && g_s < g_n));
+#endif
+    g_st0k = g_st[g_k]; uint32_t st00 = IN_st0 = g_st[0];
+    propagate_task_group_state(CPTR(0), CPTR(g_s), g_ns);
+    bool anc = g_s >= 1 && g_s < g_n;                                   /* the source is a proper ancestor of ctx */
+    if (anc && g_k == 0) OBLIGATION(g_st[0] == g_ns, "C04.propagate: a context that descends from the source carries the new state afterwards (any depth of the tree)");
+    if (anc && st00 != g_ns && g_k < g_s) OBLIGATION(g_st[g_k] == g_ns, "C04.propagate: every context on the path from ctx up to (not including) the source is marked (they descend from the source as well)");
+    if (anc && g_k >= g_s) OBLIGATION(g_st[g_k] == g_st0k, "C04.propagate: the source itself and its ancestors are never marked by a propagation");
+    if (anc && st00 == g_ns) OBLIGATION(g_st[g_k] == g_st0k, "C04.propagate: a context that already carries the new state is left alone, and so is its chain");
+    if (!anc) OBLIGATION(g_st[g_k] == g_st0k, "C04.propagate: when the source is not an ancestor of ctx (ctx itself, a sibling, a descendant, another tree, or ctx is isolated) nothing is written");
+    VACUITY_END();
+}
+#endif
+
 #ifdef BINDIMPL
 /* binder vs ONE canceller of the parent.  Canceller: (1) sets parent.cancel, then (2) walks the contexts registered at that moment and marks descendants. */
-static struct tgc Par, Child; bool reg, p_set, p_walked;
+static struct tgc Par, Child; bool reg, p_set, p_hint, p_skip, p_walked;
+/* the canceller's steps in the order of its code: cancel_group_execution exchanges the flag (job cancel.one_winner), then the disseminator reads the child hint and skips the whole
+   propagation when it is not set (job walk.disseminator), else walks every registered context */
 static void canceller_steps(bool force) {
     if (!p_set && (force || nondet_bool())) { Par.my_cancellation_requested = 1; p_set = true; }
-    if (p_set && !p_walked && (force || nondet_bool())) { p_walked = true; if (reg && Child.my_parent == &Par) Child.my_cancellation_requested = 1; }
+    if (p_set && !p_hint && (force || nondet_bool())) { p_hint = true; p_skip = Par.my_may_have_children != may_have_children; }
+    if (p_hint && !p_walked && (force || nondet_bool())) { p_walked = true; if (!p_skip && reg && Child.my_parent == &Par) Child.my_cancellation_requested = 1; }
 }
 static void interfere(void) { canceller_steps(false); }
 #define ATOMIC_LOAD_AT(site, f) ({ interfere(); (f); })
@@ -108,12 +165,14 @@ static void STUB_register_with(struct tgc *c, struct thread_data *td) { interfer
 #include "tgc.inc"
 void h_bind_impl(void) {
     struct thread_data td; td.current_context = &Par; td.default_ctx = NULL;
-    Par.my_parent = NULL; Par.my_cancellation_requested = nondet_bool(); Par.my_may_have_children = nondet_uchar(); p_set = Par.my_cancellation_requested; p_walked = p_set ? nondet_bool() : false;
+    Par.my_parent = NULL; Par.my_cancellation_requested = nondet_bool(); Par.my_may_have_children = nondet_uchar(); p_set = Par.my_cancellation_requested; p_hint = p_set ? nondet_bool() : false; p_skip = p_hint ? nondet_bool() : false; p_walked = p_hint ? nondet_bool() : false;
+    __CPROVER_assume(!p_hint || p_skip || Par.my_may_have_children == may_have_children);      /* the hint is only ever set: a canceller that saw it set reads it set now */
     Child.my_parent = NULL; Child.my_cancellation_requested = 0; Child.my_state = state_locked; Child.my_traits.fp_settings = nondet_bool(); Child.my_traits.bound = true; reg = false;
     bind_to_impl(&Child, &td);
     canceller_steps(true);                      /* let a canceller of the parent finish */
     OBLIGATION(Child.my_parent == &Par && reg && Par.my_may_have_children == may_have_children, "C04.bind: the context is attached to the running context and registered");
     OBLIGATION(Child.my_cancellation_requested == 1, "C04.bind: a cancellation of the parent that races with the binding is not missed: the bound child ends cancelled (registration first, state copy second)");
+    OBLIGATION(!p_skip || Child.my_cancellation_requested == 1, "C04.bind: a canceller that skipped the propagation because the parent had no child hint yet is made up for by the binder (hint first, state copy afterwards)");
     VACUITY_END();
 }
 #endif
@@ -250,9 +309,18 @@ static void walk_marks(struct clist *l) {                   /* one list walk: ev
     if (l == LP && desc) P.my_cancellation_requested = 1;
     if (l == LB && reg && C.my_parent == &P && desc) { C.my_cancellation_requested = 1; P.my_cancellation_requested = 1; }
 }
+/* the canceller before the propagation proper (cancel_group_execution, then the head of the disseminator): ps 0 nothing, 1 the source's flag is set (the winning exchange), 2 the source's
+   child hint was read - a source without the hint is not propagated at all (skip).  The source is the grand-ancestor G (its hint is set: it has a bound child) or the parent P itself. */
+bool src_p, skip; int ps;
+static void pre_advance(int to) {
+    if (ps < 1 && to >= 1) { if (src_p) P.my_cancellation_requested = 1; else G.my_cancellation_requested = 1; ps = 1; }
+    if (ps < 2 && to >= 2) { skip = src_p && P.my_may_have_children != may_have_children; ps = 2; }
+}
 static void pi_advance(int to) {                            /* the steps are taken in order; the order of the two lists is arbitrary (p_first) */
     struct clist *l1 = p_first ? LP : LB, *l2 = p_first ? LB : LP;
-    if (pi < 1 && to >= 1) { G.my_cancellation_requested = 1; the_context_state_propagation_epoch++; pi = 1; }
+    if (to >= 1) pre_advance(2);
+    if (skip) return;
+    if (pi < 1 && to >= 1) { the_context_state_propagation_epoch++; pi = 1; }
     if (pi < 2 && to >= 2) { walk_marks(l1); pi = 2; }
     if (pi < 3 && to >= 3) { l1->epoch = the_context_state_propagation_epoch; pi = 3; }
     if (pi < 4 && to >= 4) { if (l2 != l1) walk_marks(l2); pi = 4; }
@@ -260,7 +328,8 @@ static void pi_advance(int to) {                            /* the steps are tak
 }
 #define PI_IN_FLIGHT (pi >= 1 && pi <= 4)
 static void interfere(void) {
-    int to = nondet_int(); __CPROVER_assume(to >= pi && to <= 5);
+    int tp = nondet_int(); __CPROVER_assume(tp >= ps && tp <= 2); pre_advance(tp);
+    int to = nondet_int(); __CPROVER_assume(to >= pi && to <= 5); if (ps < 2) to = pi;
     if (PROP_HOLDS_BINDER_MUTEX && binder_holds) { if (pi == 0) to = 0; }      /* a propagation that needs the mutex the binder holds cannot start */
     pi_advance(to);
 }
@@ -284,7 +353,8 @@ void register_with(struct tgc *ctx, struct thread_data *td);
 void h_bind_ga(void) {
     LP = &LP_; LB = nondet_bool() ? &LP_ : &LB_;
     struct thread_data td; td.current_context = &P; td.default_ctx = NULL; td.my_context_list = LB;
-    desc = nondet_bool(); G.my_parent = NULL; Other.my_parent = NULL; G.my_cancellation_requested = 0; Other.my_cancellation_requested = 0;
+    src_p = nondet_bool(); ps = 0; skip = false;
+    desc = src_p ? true : nondet_bool(); G.my_parent = NULL; Other.my_parent = NULL; G.my_cancellation_requested = 0; Other.my_cancellation_requested = 0;
     P.my_parent = desc ? &G : &Other; P.my_context_list = LP; P.my_may_have_children = nondet_uchar(); P.my_cancellation_requested = 0;
     the_context_state_propagation_epoch = nondet_uintptr_t(); LP->epoch = nondet_uintptr_t(); LB->epoch = nondet_uintptr_t();
     __CPROVER_assume(the_context_state_propagation_epoch < ((uintptr_t)1 << 62) && LP->epoch <= the_context_state_propagation_epoch && LB->epoch <= the_context_state_propagation_epoch);
@@ -293,9 +363,175 @@ void h_bind_ga(void) {
     C.my_parent = NULL; C.my_cancellation_requested = 0; C.my_state = state_locked; C.my_traits.fp_settings = nondet_bool(); C.my_traits.bound = true; C.my_context_list = NULL;
     bind_to_impl(&C, &td);
     pi_advance(5);                                          /* let the propagation finish */
+    OBLIGATION(!skip || C.my_cancellation_requested == 1, "C04.bind: a canceller of the parent that skipped the propagation because the parent had no child hint yet is made up for by the binder (hint first, state copy afterwards)");
     OBLIGATION(C.my_parent == &P && reg && C.my_context_list == LB && !binder_holds, "C04.bind: the context is attached beneath the running context and registered in the binder's list; the slow-path mutex is released");
     OBLIGATION(!desc || (P.my_cancellation_requested == 1 && C.my_cancellation_requested == 1), "C04.bind: once the cancel of a grand-ancestor and the binding have both completed, the new context is cancelled like its parent - whatever the interleaving of the propagation with the speculative copy, the registration, the epoch check and the slow path");
     OBLIGATION(desc || C.my_cancellation_requested == 0, "C04.bind: a context bound beneath a tree that is not cancelled stays uncancelled");
+    VACUITY_END();
+}
+#endif
+
+#ifdef ILIST
+/* intrusive_list_base::{push_front, remove, empty, assert_ok} on REAL nodes, a window of the list: head, the nodes next to the place of the operation (A in front, B behind), and Z standing
+   for everything further away (never touched).  T is intrusive_list_node itself (context_list) or derives from it (thread_data): node(val) is val. */
+struct ilist { struct ilnode my_head; size_t my_size; };
+#define NODE(v) (v)
+#include "ilist.inc"
+static struct ilist Lst; static struct ilnode A, B, Z, V;
+#define HEAD (&Lst.my_head)
+#define REP_OK ((Lst.my_head.my_next_node == HEAD) == (Lst.my_size == 0) && (Lst.my_head.my_prev_node == HEAD) == (Lst.my_size == 0))
+void h_ilist_push_front(void) {
+    __CPROVER_havoc_object(&A); __CPROVER_havoc_object(&B); __CPROVER_havoc_object(&Z);
+    size_t n0 = Lst.my_size = nondet_size_t(); __CPROVER_assume(n0 < SIZE_MAX);
+    if (n0 == 0) { Lst.my_head.my_next_node = HEAD; Lst.my_head.my_prev_node = HEAD; }
+    else { Lst.my_head.my_next_node = &A; A.my_prev_node = HEAD;
+           if (n0 == 1) { A.my_next_node = HEAD; Lst.my_head.my_prev_node = &A; } else { A.my_next_node = &B; B.my_prev_node = &A; Lst.my_head.my_prev_node = n0 == 2 ? &B : &Z; if (n0 == 2) B.my_next_node = HEAD; } }
+    V.my_prev_node = &V; V.my_next_node = &V;                 /* a context's node is self-linked by initialize (job lifetime.initialize) and a context is registered once (job bind.one_binder) */
+    struct ilnode a0 = A, b0 = B, z0 = Z; struct ilnode *last0 = Lst.my_head.my_prev_node;
+    ilist_push_front(&Lst, &V);
+    OBLIGATION(Lst.my_head.my_next_node == &V && V.my_prev_node == HEAD, "C04.registry: the new node is the first of the list, linked to the head in both directions");
+    OBLIGATION(n0 == 0 ? (V.my_next_node == HEAD && Lst.my_head.my_prev_node == &V) : (V.my_next_node == &A && A.my_prev_node == &V && Lst.my_head.my_prev_node == last0),
+               "C04.registry: the former first node follows the new one, linked in both directions - a walk from the head reaches the new node and then every node it reached before");
+    OBLIGATION(A.my_next_node == a0.my_next_node && B.my_prev_node == b0.my_prev_node && B.my_next_node == b0.my_next_node && Z.my_prev_node == z0.my_prev_node && Z.my_next_node == z0.my_next_node,
+               "C04.registry: no other link of the list is touched by an insertion");
+    OBLIGATION(Lst.my_size == n0 + 1 && REP_OK, "C04.registry: the size counts the linked nodes; the list is empty exactly when its size is 0");
+    VACUITY_END();
+}
+void h_ilist_remove(void) {
+    __CPROVER_havoc_object(&A); __CPROVER_havoc_object(&B); __CPROVER_havoc_object(&Z);
+    size_t n0 = Lst.my_size = nondet_size_t(); __CPROVER_assume(n0 >= 1);
+    bool hasA = nondet_bool(), hasB = nondet_bool();           /* V's predecessor is A or the head, its successor B or the head */
+    __CPROVER_assume((n0 == 1) == (!hasA && !hasB));
+    struct ilnode *P = hasA ? &A : HEAD, *N = hasB ? &B : HEAD;
+    V.my_prev_node = P; V.my_next_node = N; P->my_next_node = &V; N->my_prev_node = &V;
+    if (hasA) { bool first = nondet_bool(); A.my_prev_node = first ? HEAD : &Z; Lst.my_head.my_next_node = first ? &A : &Z; }
+    if (hasB) { bool last = nondet_bool(); B.my_next_node = last ? HEAD : &Z; Lst.my_head.my_prev_node = last ? &B : &Z; }
+    struct ilnode a0 = A, b0 = B, z0 = Z; struct ilnode *first0 = Lst.my_head.my_next_node, *last0 = Lst.my_head.my_prev_node;
+    ilist_remove(&Lst, &V);
+    OBLIGATION(P->my_next_node == N && N->my_prev_node == P, "C04.registry: the neighbours of the removed node are linked to each other in both directions - a walk no longer reaches the removed node and still reaches every other");
+    OBLIGATION((!hasA || (A.my_prev_node == a0.my_prev_node && Lst.my_head.my_next_node == first0)) && (!hasB || (B.my_next_node == b0.my_next_node && Lst.my_head.my_prev_node == last0))
+               && Z.my_prev_node == z0.my_prev_node && Z.my_next_node == z0.my_next_node, "C04.registry: no other link of the list is touched by a removal");
+    OBLIGATION(Lst.my_head.my_next_node != &V && Lst.my_head.my_prev_node != &V && (!hasA || A.my_next_node != &V) && (!hasB || B.my_prev_node != &V), "C04.registry: nothing in the list points to the removed node any more");
+    OBLIGATION(Lst.my_size == n0 - 1 && REP_OK, "C04.registry: the size counts the linked nodes; the list is empty exactly when its size is 0");
+    VACUITY_END();
+}
+void h_ilist_empty(void) {
+    Lst.my_size = nondet_size_t(); Lst.my_head.my_next_node = nondet_bool() ? HEAD : &A; Lst.my_head.my_prev_node = nondet_bool() ? HEAD : &A; __CPROVER_assume(REP_OK);   /* kept by push_front and remove (jobs above) */
+    bool r = ilist_empty(&Lst);
+    OBLIGATION(r == (Lst.my_size == 0), "C04.registry: empty() is true exactly when no node is linked");
+    VACUITY_END();
+}
+#endif
+
+#ifdef REGISTRY
+/* The per-thread registry of bound contexts: context_list::{push_front, remove, orphan, destroy} and task_group_context_impl::{register_with, destroy} - real code down to the base
+   class list operations, which are contract stubs here (proved on real nodes in registry.ilist.*).  The list is a heap object that the deallocation stub really frees: any later
+   access is a pointer-check failure.  Ghost: g_in = THE watched context K is linked in the list; g_cnt/g_orph = copies of size and orphaned flag that survive the list. */
+static struct clist *L; static struct tgc K, O; static struct eptr E;
+bool g_in, g_orph, g_owns; size_t g_cnt; int g_freed, g_dtors, g_removes, g_pushes, g_acq, g_edestroy, g_envd;
+#define SLOCK_ACQUIRE(m) do { __CPROVER_assert(g_freed == 0, "C04.registry: a freed list is never locked again"); __CPROVER_assert(!g_owns && (m) == 0, "C04.registry: the list mutex is free when it is taken (no self-deadlock)"); (m) = 1; g_owns = true; g_acq++; } while (0)
+#define SLOCK_RELEASE(m) do { __CPROVER_assert(g_owns && (m) == 1, "C04.registry: only a held mutex is released"); (m) = 0; g_owns = false; } while (0)
+#define SLOCK_SCOPE_EXIT(m) do { if (g_owns) { (m) = 0; g_owns = false; } } while (0)          /* ~scoped_lock: unlocks only if the lock still owns the mutex */
+#define UNDER_LOCK(self) __CPROVER_assert((self) == L && g_freed == 0 && (self)->m_mutex == 1 && g_owns, "C04.registry: a context list is read and changed only under its own mutex - the mutex the propagation walk holds, so a walk never meets a half-linked or a removed context")
+static void ILIST_REMOVE(struct clist *self, struct ilnode *val) { UNDER_LOCK(self);
+    __CPROVER_assert(val == &K.my_node ? g_in : self->n >= (size_t)1 + g_in, "C04.registry: only a context that is in the list is removed from it");
+    self->n--; g_cnt--; g_removes++; if (val == &K.my_node) g_in = false; }
+static void ILIST_PUSH_FRONT(struct clist *self, struct ilnode *val) { UNDER_LOCK(self);
+    __CPROVER_assert(!self->orphaned, "C04.registry: nothing is registered in the list of a thread that is gone");
+    __CPROVER_assert(val != &K.my_node || !g_in, "C04.registry: a context is in at most one list, at most once");
+    self->n++; g_cnt++; g_pushes++; if (val == &K.my_node) g_in = true; }
+static bool ILIST_EMPTY(struct clist *self) { UNDER_LOCK(self); return self->n == 0; }
+static void CLIST_DTOR(struct clist *self) { __CPROVER_assert(self == L && g_freed == 0, "C04.registry: the list is freed at most once");
+    __CPROVER_assert(!g_owns && self->m_mutex == 0, "C04.registry: the list mutex is released before the list is destroyed");
+    __CPROVER_assert(self->orphaned && self->n == 0, "C04.registry: a list is destroyed only when its thread is gone AND no context is left in it");
+    g_dtors++; }
+static void STUB_cache_aligned_deallocate(struct clist *self) { __CPROVER_assert(self == L && g_freed == 0 && g_dtors == 1, "C04.registry: the list is freed at most once, after its destructor");
+    g_freed++; free(self); }
+#define ATOMIC_LOAD_AT(site, f) (f)
+#define HOOK_DEAD(fp) __CPROVER_assert((void *)(fp) != (void *)&K.my_state || !g_in, "C04.registry: a context is declared dead only after it left its thread's list (a propagation walk never visits a destroyed context)")
+#define ATOMIC_STORE_AT(site, f, v) do { HOOK_DEAD(&(f)); (f) = (v); } while (0)
+#define POISON_POINTER(x) __CPROVER_assert(!g_in, "C04.registry: the fields of a context are invalidated only after it left its thread's list")
+static void STUB_cpu_ctl_env_dtor(struct tgc *c) { g_envd++; }
+static void STUB_exception_destroy(struct eptr *e) { __CPROVER_assert(e == &E && E.live == 1, "C04.lifetime: only a live exception holder is released"); E.live = 0; g_edestroy++; }
+static void STUB_get_env(struct tgc *c) { g_envd++; }
+#include "clist.inc"
+#include "tgcl.inc"
+static size_t n0; static bool in0, orph0;
+static void mk_list(bool may_be_orphaned) {
+    L = malloc(sizeof(struct clist)); __CPROVER_assume(L != NULL);
+    n0 = g_cnt = L->n = nondet_size_t(); __CPROVER_assume(n0 < ((size_t)1 << 60)); orph0 = g_orph = L->orphaned = may_be_orphaned ? nondet_bool() : false; L->m_mutex = 0; L->epoch = nondet_uintptr_t();
+    in0 = g_in = nondet_bool(); __CPROVER_assume(!g_in || n0 >= 1);
+    __CPROVER_assume(!(orph0 && n0 == 0));                       /* such a list was freed already (invariant below) */
+    g_owns = false; g_freed = g_dtors = g_removes = g_pushes = g_acq = g_edestroy = g_envd = 0;
+}
+/* invariant of the protocol, kept by every operation: the list is freed exactly when (orphaned && empty) became true */
+#define FREED_IFF (g_freed == ((g_orph && g_cnt == 0) ? 1 : 0) && g_dtors == g_freed)
+void h_clist_remove(void) {
+    mk_list(true); struct ilnode *val = nondet_bool() ? &K.my_node : &O.my_node;
+    __CPROVER_assume(val == &K.my_node ? g_in : n0 >= (size_t)1 + g_in);      /* the caller's context is in the list (task_group_context_impl::destroy: my_context_list != NULL) */
+    clist_remove(L, val);
+    OBLIGATION(g_removes == 1 && g_cnt == n0 - 1 && (val == &K.my_node ? !g_in : g_in == in0), "C04.registry: remove() takes exactly the given context out of the list");
+    OBLIGATION(FREED_IFF, "C04.registry: the list of a thread that is gone is freed by the remove() that empties it, exactly once; a list that still has its thread or still holds a context is not freed");
+    OBLIGATION(!g_owns && (g_freed || (L->m_mutex == 0 && L->n == n0 - 1 && L->orphaned == orph0)), "C04.registry: the list mutex is released on every path");
+    VACUITY_END();
+}
+void h_clist_orphan(void) {
+    mk_list(false);                                                            /* orphan() is called once per list, by ~thread_data (job registry.thread_exit) */
+    clist_orphan(L); g_orph = true;
+    OBLIGATION(g_removes == 0 && g_pushes == 0 && g_cnt == n0 && g_in == in0, "C04.registry: orphan() leaves the contexts in the list (they unregister themselves later)");
+    OBLIGATION(FREED_IFF, "C04.registry: an empty list is freed by its departing thread, exactly once; a list that still holds contexts is left to the last remove()");
+    OBLIGATION(!g_owns && (g_freed || (L->m_mutex == 0 && L->orphaned && L->n == n0)), "C04.registry: the list mutex is released on every path and the list is marked orphaned");
+    VACUITY_END();
+}
+void h_clist_push_front(void) {
+    mk_list(false); struct ilnode *val = nondet_bool() ? &K.my_node : &O.my_node;     /* only the owner thread registers, and it does so before it orphans the list */
+    __CPROVER_assume(val != &K.my_node || !g_in);
+    clist_push_front(L, val);
+    OBLIGATION(g_pushes == 1 && g_removes == 0 && g_cnt == n0 + 1 && (val == &K.my_node ? g_in : g_in == in0), "C04.registry: push_front() puts exactly the given context into the list");
+    OBLIGATION(FREED_IFF && g_freed == 0, "C04.registry: a list that has its thread is not freed");
+    OBLIGATION(!g_owns && L->m_mutex == 0 && L->n == n0 + 1 && !L->orphaned, "C04.registry: the list mutex is released");
+    VACUITY_END();
+}
+void h_register_with(void) {
+    mk_list(false); __CPROVER_assume(!g_in); struct thread_data td; td.my_context_list = L;
+    __CPROVER_havoc_object(&K); K.my_context_list = NULL;
+    register_with(&K, &td);
+    OBLIGATION(g_in && g_pushes == 1 && g_cnt == n0 + 1, "C04.registry: a context that is being bound is put into the binding thread's list (every propagation that takes the list mutex afterwards visits it)");
+    OBLIGATION(K.my_context_list == L, "C04.registry: the context remembers the list it is in - its destruction unregisters it from that very list");
+    OBLIGATION(!g_owns && L->m_mutex == 0 && g_freed == 0, "C04.registry: the list mutex is released");
+    VACUITY_END();
+}
+void h_tgc_destroy(void) {
+    mk_list(true); __CPROVER_havoc_object(&K);
+    bool registered = nondet_bool();                                            /* invariant (register_with, initialize): my_context_list != NULL exactly when the context is in that list */
+    K.my_context_list = registered ? L : NULL; __CPROVER_assume(g_in == registered); if (registered) K.my_state = state_bound; else __CPROVER_assume(K.my_state <= state_bound);
+    bool exc = nondet_bool(); K.my_exception = exc ? &E : NULL; E.live = 1;
+    tgc_destroy(&K);
+    OBLIGATION(!g_in && g_removes == (registered ? 1 : 0) && g_pushes == 0 && g_cnt == n0 - (registered ? 1 : 0), "C04.registry: a bound context stays in its thread's list until its destruction, which takes it - and nothing else - out");
+    OBLIGATION(K.my_state == state_dead, "C04.lifetime: a destroyed context ends in state dead");
+    OBLIGATION(FREED_IFF && !g_owns && (g_freed || L->m_mutex == 0), "C04.registry: the last context to leave the list of a thread that is gone frees the list, exactly once; the mutex is released");
+    OBLIGATION(g_edestroy == (exc ? 1 : 0) && E.live == (exc ? 0 : 1), "C04.lifetime: a stored exception holder is released exactly once");
+    VACUITY_END();
+}
+void h_tgc_initialize(void) {
+    __CPROVER_havoc_object(&K); bool fp = K.my_traits.fp_settings; g_envd = 0;
+    tgc_initialize(&K);
+    OBLIGATION(K.my_cancellation_requested == 0, "C04.lifetime: a new context is not cancelled");
+    OBLIGATION(K.my_parent == NULL && K.my_context_list == NULL && K.my_state == state_created && K.my_may_have_children == 0, "C04.lifetime: a new context has no parent, is in no thread's list, has no child hint and is in state created (bind_to decides later)");
+    OBLIGATION(K.my_node.my_next_node == &K.my_node && K.my_node.my_prev_node == &K.my_node, "C04.lifetime: the list node of a new context is self-linked (precondition of the registration)");
+    OBLIGATION(K.my_exception == NULL && g_envd == (fp ? 1 : 0), "C04.lifetime: a new context holds no exception; FPU settings are captured only on request");
+    VACUITY_END();
+}
+void h_tgc_reset(void) {
+    __CPROVER_havoc_object(&K); struct tgc k0; bool exc = nondet_bool(); K.my_exception = exc ? &E : NULL; E.live = 1; g_edestroy = 0; __CPROVER_assume(K.my_cancellation_requested <= 1); k0 = K;      /* the flag is 0 or 1: written by initialize (0), cancel (exchange 1), propagation of 1, copies, reset (0) */
+    bool was = tgc_is_cancelled(&K);
+    OBLIGATION(was == (k0.my_cancellation_requested != 0), "C04.lifetime: is_group_execution_cancelled reports exactly the cancellation flag");
+    tgc_reset(&K);
+    OBLIGATION(K.my_cancellation_requested == 0 && !tgc_is_cancelled(&K), "C04.lifetime: reset takes the cancellation back");
+    OBLIGATION(K.my_parent == k0.my_parent && K.my_context_list == k0.my_context_list && K.my_state == k0.my_state && K.my_may_have_children == k0.my_may_have_children
+               && K.my_node.my_next_node == k0.my_node.my_next_node && K.my_node.my_prev_node == k0.my_node.my_prev_node,
+               "C04.lifetime: reset leaves the context where it is in the tree and in its thread's list - a later cancellation of an ancestor still reaches it");
+    OBLIGATION(K.my_exception == NULL && g_edestroy == (exc ? 1 : 0) && E.live == (exc ? 0 : 1), "C04.lifetime: reset releases a stored exception holder exactly once and forgets it");
     VACUITY_END();
 }
 #endif
